@@ -6,28 +6,30 @@
    points of the verif-hooks build sit exactly between them):
 
      resolve(k, name)                                              store.rs
-       R1  lock cache; cache.resolve -> hit: answer, done          :116-124
-           miss: remember the invalidation count; unlock           :125
-           -- pause zonestore.resolve.after_check --
-       R2  store.get(k)  (one message to the store actor)          :132
-           None: answer None, done (no DHT configured)             :160-175
-           -- pause zonestore.resolve.after_get --
-       R3  lock cache; if no invalidation since R1:
-             ZoneCache::insert (skip if cached timestamp is newer) :300-319
-             answer from the cache                                 :271-272
-           else answer from the packet, do not cache it; unlock    :136-141
+       R1  lock cache; cache.resolve -> hit: answer, done          :114-123, :257-272
+           miss (no zone, or no such record in the zone):
+           remember the invalidation count; unlock                 :124-125
+           -- pause zonestore.resolve.after_check --               :127
+       R2  store.get(k)  (one message to the store actor)          :130
+           None: answer None, done (no DHT configured)             :163-179
+           -- pause zonestore.resolve.after_get --                 :133
+       R3  lock cache; if no invalidation since R1:                :134-136
+             ZoneCache::insert (skip if cached timestamp is newer) :301-320
+             answer from the cache                                 :274-283
+           else answer from the packet, do not cache it; unlock    :137-143
      insert(p)
        P1  store.upsert(p) (one message to the store actor;
-           replaces unless the stored packet is more recent)       :202, signed_packets.rs:161-195
-           not an update: acknowledge false, done                  :207-209
-           -- pause zonestore.insert.after_upsert --
+           replaces unless the stored packet is more recent)       :203, signed_packets.rs:161-195
+           not an update: acknowledge false, done                  :209-212
+           -- pause zonestore.insert.after_upsert --               :206
        P2  lock cache; remove(k); count the invalidation; unlock;
-           acknowledge true                                        :205-206, :321-330
+           acknowledge true                                        :207-208, :322-331
      get_signed_packet(k)
-       G1  store.get(k)                                            :184
+       G1  store.get(k)                                            :188
 
    [fx = false] is the code before the fix (no invalidation count: R3 always
-   inserts).  The LRU bound (2^20 zones) and the DHT cache are not modelled. *)
+   inserts).  The LRU bound (2^20 zones) and the DHT cache are not modelled; the
+   invalidation count is a u64 in the code (wrapping) and unbounded here. *)
 From V Require Import Lib.Base.
 Open Scope N_scope.
 
@@ -161,7 +163,7 @@ Definition input := (list task * list nat)%type.
 Definition output := list obs.
 
 (* the code as it is now (with the fix) *)
-Definition FIXED := false.
+Definition FIXED := true.
 
 Definition model_fx (fx : bool) (i : input) : output :=
   let '(tasks, sched) := i in run fx tasks init (full_sched tasks sched).
